@@ -49,6 +49,10 @@ func runC04(c *Ctx) {
 	if g := newGossipAnchors(c.P); g.ok {
 		c02R2(c, g, "C04.R7")
 		pairingRule(c, g, "C04.R8", map[string]bool{"entries-update": true, "entries-delete": true})
+		// withdrawn endpoints reach observers: complete version-ordered deltas, whole-entry prefixes, consistent compaction
+		c02R3(c, g)
+		c13Encode(c, "C04.R9", "C04.R9")
+		c17All(c, g)
 	} else {
 		c.fail("C04.anchor", "pkg/gossip state types", token.NoPos, "unresolved:"+g.missing)
 	}
@@ -144,7 +148,10 @@ func c04R1(c *Ctx) {
 			return true
 		})
 		positive := present && anyFact(facts, func(f Fact) bool {
-			isL := func(v ssa.Value) bool { ex, ok := v.(*ssa.Extract); return ok && ex.Index == 0 && ex.Tuple == ssa.Value(lk) }
+			isL := func(v ssa.Value) bool {
+				ex, ok := v.(*ssa.Extract)
+				return ok && ex.Index == 0 && ex.Tuple == ssa.Value(lk)
+			}
 			isK := func(k int64) func(ssa.Value) bool {
 				return func(v ssa.Value) bool { n, ok := constInt(v); return ok && n == k }
 			}
@@ -287,7 +294,7 @@ func c04StatusRules(c *Ctx, rule string) {
 	pending := p.Field(sgPkg, "syncer", "pendingNodes")
 	type spec struct {
 		method, mutator, statusConst string
-		pendingOp                     string // delete | status
+		pendingOp                    string // delete | status
 	}
 	specs := []spec{
 		{"OnLeave", "UpdateRemoteStatus", "NodeStatusLeft", "delete"},
